@@ -122,6 +122,10 @@ pub enum WOp {
     Typed(usize, u128, usize), // row, value, nbytes
     PutBuf(Spec, bool),        // reader tree, through the default `put` on Box<dyn>
     SetLimit(usize),
+    /// the manual protocol: fill chunk_mut() through the UninitSlice API, then advance_mut
+    Manual(usize, u8),
+    /// out-of-range use of the UninitSlice returned by chunk_mut(): must panic, nothing written
+    UninitOoc(u8),
     Check,
 }
 
@@ -232,6 +236,58 @@ pub fn run_case(o: &mut Obs, spec: &WSpec, ops: &[WOp], path: usize, use_writer:
             WOp::SetLimit(l) => {
                 if root.set_limit_opt(*l) {
                     lim_over = Some((*l, written.len()));
+                }
+                (Vec::new(), Ok(()))
+            }
+            WOp::Manual(k, how) => {
+                let d = rd::data(*k, written.len() as u64 + 11);
+                let r = catch(|| {
+                    let mut left = &d[..];
+                    while !left.is_empty() {
+                        let c = root.chunk_mut();
+                        let n = c.len().min(left.len());
+                        if n == 0 {
+                            panic!("manual: no room");
+                        }
+                        match how % 3 {
+                            0 => c[..n].copy_from_slice(&left[..n]),
+                            1 => {
+                                for (i, &b) in left[..n].iter().enumerate() {
+                                    c.write_byte(i, b);
+                                }
+                            }
+                            _ => {
+                                let sub = &mut c[..n];
+                                unsafe {
+                                    core::ptr::copy_nonoverlapping(left.as_ptr(), sub.as_mut_ptr(), n);
+                                }
+                            }
+                        }
+                        // SAFETY: the first n bytes of the chunk were just initialised
+                        unsafe { root.advance_mut(n) };
+                        left = &left[n..];
+                    }
+                });
+                (d, r)
+            }
+            WOp::UninitOoc(how) => {
+                let c = root.chunk_mut();
+                let n = c.len();
+                let r = match how % 5 {
+                    0 => catch(|| c.write_byte(n, 0x99)),
+                    1 => catch(|| c.copy_from_slice(&vec![0x99u8; n + 1])),
+                    2 => catch(|| {
+                        let _ = &mut c[..n + 1];
+                    }),
+                    3 => catch(|| {
+                        let _ = &mut c[n + 1..];
+                    }),
+                    _ => catch(|| c.write_byte(usize::MAX, 0x99)),
+                };
+                o.inc("uninit_ooc_calls");
+                if r.is_ok() {
+                    viol(o, spec, "uninit-slice-ooc-accepted", case, &format!("out-of-range UninitSlice access variant {} on a chunk of {n} bytes did not panic", how % 5));
+                    return;
                 }
                 (Vec::new(), Ok(()))
             }
@@ -497,6 +553,8 @@ pub fn writers(a: &Args, o: &mut Obs) {
                     }
                     WOp::SetLimit(l)
                 }
+                9 if r.chance(1, 2) => WOp::Manual(sz, r.byte()),
+                9 => WOp::UninitOoc(r.byte()),
                 _ => WOp::Check,
             };
             used += match &op {
@@ -516,6 +574,7 @@ pub fn writers(a: &Args, o: &mut Obs) {
                     }
                 }
                 WOp::PutBuf(s, _) => s.model().len(),
+                WOp::Manual(k, _) => *k,
                 _ => 0,
             };
             ops.push(op);
